@@ -189,6 +189,7 @@ struct Stats {
     histories: u64,
     events: u64,
     burst_moves: u64,
+    drift_counts: u64,
     reads: u64,
     distinct_states: HashSet<u64>,
     sample: Option<J>,
@@ -217,6 +218,9 @@ fn run_history(ctx: &Ctx, t: &Tables, rng: &mut Rng, hist_id: u64, st: &mut Stat
     let mut log: Vec<String> = vec![];
     // weights biased so that overlaps happen: few keys used per history
     let hot_keys: Vec<usize> = (0..6).map(|_| rng.below(t.keys.len() as u64) as usize).collect();
+    // one history in four comes from a host whose pointer keeps turning one way (a grabbed mouse in a
+    // game): the net motion grows far beyond any 8- or 16-bit range, the counters still count modulo 256
+    let drift: Option<(i8, i8)> = if rng.chance(1, 4) { Some((if rng.bool() { 1 } else { -1 }, if rng.bool() { 1 } else { -1 })) } else { None };
     for evno in 0..len {
         let ev = match rng.below(100) {
             0..=29 => {
@@ -345,6 +349,23 @@ fn run_history(ctx: &Ctx, t: &Tables, rng: &mut Rng, hist_id: u64, st: &mut Stat
                         }
                     }
                 }
+                if let Some((sx, sy)) = drift {
+                    let n = 24 + rng.below(16);
+                    let (mut tx, mut ty) = (0i32, 0i32);
+                    for _ in 0..n {
+                        let (ex, ey) = (sx * (100 + rng.below(28) as i8), sy * (100 + rng.below(28) as i8));
+                        m.emu.send_mouse_pos_diff(ex, ey);
+                        tx += ex as i32;
+                        ty += ey as i32;
+                        st.burst_moves += 1;
+                        if cfg.mouse {
+                            mx = mx.wrapping_add(ex as u8);
+                            my = my.wrapping_sub(ey as u8);
+                        }
+                    }
+                    st.drift_counts += (tx.unsigned_abs() + ty.unsigned_abs()) as u64;
+                    log.push(format!("{} more moves the same way, together ({}, {}) [no port read in between]", n, tx, ty));
+                }
             }
         }
         let _ = mouse_expect_change;
@@ -414,7 +435,7 @@ pub fn run(ctx: &Ctx) -> Evidence {
     let shards = 64usize;
     let res = par_map(ctx.jobs(), shards, |sh| {
         let t = tables();
-        let mut st = Stats { histories: 0, events: 0, burst_moves: 0, reads: 0, distinct_states: HashSet::new(), sample: None };
+        let mut st = Stats { histories: 0, events: 0, burst_moves: 0, drift_counts: 0, reads: 0, distinct_states: HashSet::new(), sample: None };
         let per = (n_hist as usize + shards - 1) / shards;
         for i in 0..per {
             let hid = (sh * per + i) as u64;
@@ -428,6 +449,7 @@ pub fn run(ctx: &Ctx) -> Evidence {
     for r in res {
         ev.evaluations += r.events;
         ev.add_num("motion_events_sent_without_a_port_read_in_between", r.burst_moves);
+        ev.add_num("mouse_counts_moved_in_one-way_drifts", r.drift_counts);
         ev.add_num("histories", r.histories);
         ev.add_num("port_reads_compared", r.reads);
         states.extend(r.distinct_states);
